@@ -23,6 +23,8 @@ func main() {
 	switch os.Args[1] {
 	case "bufpool":
 		bufpoolMain(a)
+	case "brokerpool":
+		brokerpoolMain(a)
 	case "keepalive":
 		keepaliveMain(a)
 	case "ws-reader":
